@@ -203,10 +203,33 @@ class _Inliner:
             return isinstance(fn, ast.Name) and fn.id == name
         return isinstance(fn, ast.Attribute) and fn.attr == name and isinstance(fn.value, ast.Name) and fn.value.id in ("self", "cls", cls)
 
+    @staticmethod
+    def _canon_default_idiom(f):
+        """v = M.get(k); if v is None: v = d; return v   ==>   return M.get(k, d)   (the default for a missing / None value)"""
+        body = [st for st in f.body if not (isinstance(st, ast.Expr) and isinstance(st.value, ast.Constant))]
+        if len(body) != 3:
+            return
+        a, c, r = body
+        if not (isinstance(a, ast.Assign) and len(a.targets) == 1 and isinstance(a.targets[0], ast.Name) and isinstance(a.value, ast.Call)
+                and isinstance(a.value.func, ast.Attribute) and a.value.func.attr == "get" and len(a.value.args) == 1 and not a.value.keywords):
+            return
+        v = a.targets[0].id
+        if not (isinstance(c, ast.If) and not c.orelse and len(c.body) == 1 and isinstance(c.body[0], ast.Assign) and len(c.body[0].targets) == 1
+                and isinstance(c.body[0].targets[0], ast.Name) and c.body[0].targets[0].id == v and ast.unparse(c.test) == "%s is None" % v):
+            return
+        if not (isinstance(r, ast.Return) and isinstance(r.value, ast.Name) and r.value.id == v):
+            return
+        call = ast.Call(func=a.value.func, args=[a.value.args[0], c.body[0].value], keywords=[])
+        ret = ast.copy_location(ast.Return(value=ast.copy_location(call, a.value)), a)
+        ast.fix_missing_locations(ret)
+        f.body = [st for st in f.body if st not in (a, c, r)] + [ret]
+
     def run(self):
         cands = self.candidates()
         if not cands:
             return
+        for (_cls, _name), (callee_, _static) in cands.items():
+            self._canon_default_idiom(callee_)
         for (cls, name), (callee, static) in sorted(cands.items(), key=lambda kv: (kv[0][0] or "", kv[0][1])):
             # the helper must only ever be *called* (never handed around as a value)
             refs = calls = 0
@@ -217,7 +240,9 @@ class _Inliner:
                     refs += 1
                 if isinstance(n, ast.Call) and self._is_call_of(n, cls, name):
                     calls += 1
-            if calls == 0 or refs != calls or calls > 4:
+            body_ = [st for st in callee.body if not (isinstance(st, ast.Expr) and isinstance(st.value, ast.Constant))]
+            one_expr = len(body_) == 1 and isinstance(body_[0], ast.Return)
+            if calls == 0 or refs != calls or calls > (12 if one_expr else 4):
                 continue
             ok_all = True
             for ccls, caller in list(_defs(self.tree)):
@@ -282,6 +307,14 @@ class _Inliner:
             elif isinstance(s, ast.AnnAssign) and s.value is not None and isinstance(s.value, ast.Call) and self._is_call_of(s.value, cls, name):
                 call, kind = s.value, "assign"
             if call is not None:
+                # a helper that is one `return <expr>`, called with plain arguments: put the expression in place of the call
+                # (no binding statements - the caller's names keep one meaning each)
+                cb_ = [st for st in callee.body if not (isinstance(st, ast.Expr) and isinstance(st.value, ast.Constant))]
+                if len(cb_) == 1 and isinstance(cb_[0], ast.Return) and cb_[0].value is not None:
+                    s2 = self._subst_expr(copy.deepcopy(s), caller, cls, name, callee, static)
+                    if s2 is not None:
+                        out.append(s2)
+                        continue
                 tname = None
                 if kind == "assign":
                     tg0 = s.targets[0] if isinstance(s, ast.Assign) else s.target
